@@ -69,6 +69,11 @@ def make_data(desc):
   if desc.get("perm"):
     D.pidx = np_stream(seed, "perm").permutation(n)
   D.X = D.S[D.pidx]
+  D.yS0 = D.yS.copy()
+  D.y0 = D.yS0[D.pidx]
+  stride, off = int(desc.get("label_stride", 1)), int(desc.get("label_offset", 0))
+  if stride != 1 or off != 0:
+    D.yS = D.yS0 * stride + off
   D.y = D.yS[D.pidx]
   # partial labels: unknown (-1) at arbitrary positions, every class keeps >= 4
   # (or as many as it has) known members
@@ -78,15 +83,15 @@ def make_data(desc):
     ru = np_stream(seed, "unknown")
     order = ru.permutation(n)
     keep_min = int(desc.get("keep_min", 4))
-    counts = np.bincount(D.y, minlength=c)
+    counts = np.bincount(D.y0, minlength=c)
     target = int(round(unk * n))
     k = 0
     for i in order:
       if k >= target:
         break
-      if counts[D.y[i]] > keep_min:
+      if counts[D.y0[i]] > keep_min:
         D.y_partial[i] = int(ru.choice(desc.get("neg_values", [-1])))
-        counts[D.y[i]] -= 1
+        counts[D.y0[i]] -= 1
         k += 1
   # regression targets
   rr = np_stream(seed, "reg")
@@ -167,7 +172,7 @@ def _make_chunks(D, seed):
   chunks = -np.ones(n, dtype=int)
   cid = 0
   for c in range(D.classes):
-    mem = np.where(D.y == c)[0]
+    mem = np.where(D.y0 == c)[0]
     mem = mem[rs.permutation(len(mem))]
     p = 0
     while p + 2 <= len(mem):
